@@ -163,6 +163,15 @@ def work(ctx):
             k2 = call(f.replace, **kw)
             if k2[0] == "ok":
                 both("surrogate-%s" % list(kw)[0], k2[1])
+        # parameter names of every kind, the single-valued ones (*args, **kwargs) included
+        star = compile("def f(a, /, b, *va, k, **kw):\n    return (a, b, va, k, kw)\n" if sys.version_info >= (3, 8)
+                       else "def f(a, b, *va, k, **kw):\n    return (a, b, va, k, kw)\n", "<c07-star>", "exec").co_consts[0]
+        for pos in range(len(star.co_varnames)):
+            vn = list(star.co_varnames)
+            vn[pos] = vn[pos] + "\udc80"
+            k2 = call(star.replace, co_varnames=tuple(vn))
+            if k2[0] == "ok":
+                both("surrogate-parameter-%d" % pos, k2[1])
         lam = [x for x in f.co_consts if isinstance(x, types.CodeType)]
         if lam:
             k2 = call(lam[0].replace, co_freevars=("b\ud800", "c"), co_names=("g\udc01",))
